@@ -1,25 +1,52 @@
-//! Configuration matrix (DESIGN.md §2.2). Each row is instantiated for all five minimum alignments.
+//! Configuration matrix (DESIGN.md §2.2). Each row is instantiated for all five minimum alignments; the rows live in
+//! generated crates (harness/gen_cfgs.py) so that cargo compiles them in parallel.
 use vcore::runner::ConfigEntry;
-use vcore::slab::{SlabA32, SlabS8, SlabZ};
 
 /// Pairwise covering array over UP × GUARANTEED_ALLOCATED × DEALLOCATES × SHRINKS × MINIMUM_CHUNK_SIZE{0,512} ×
 /// allocator kind {Z, S8, A32}: every value of every setting and every pair of values of two settings occurs.
 pub fn quick() -> Vec<ConfigEntry> {
     let mut v = Vec::new();
-    vcore::cfg_rows!(v;
-        (SlabZ,   true,  true,  true,  true,  0),
-        (SlabZ,   false, false, false, false, 512),
-        (SlabS8,  true,  false, true,  false, 512),
-        (SlabS8,  false, true,  false, true,  0),
-        (SlabA32, true,  true,  false, false, 0),
-        (SlabA32, false, false, true,  true,  512),
-        (SlabZ,   false, true,  true,  false, 0),
-        (SlabS8,  true,  true,  true,  true,  512),
-        (SlabZ,   true,  false, false, true,  0),
-    );
+    v.extend(cfgq0::entries());
+    v.extend(cfgq1::entries());
+    v.extend(cfgq2::entries());
+    v.extend(cfgq3::entries());
+    v.extend(cfgq4::entries());
+    v.extend(cfgq5::entries());
+    v.extend(cfgq6::entries());
+    v.extend(cfgq7::entries());
+    v.extend(cfgq8::entries());
     v
 }
 
-pub fn all(_include_full: bool) -> Vec<ConfigEntry> {
+/// The complete product UP × GA × DEALLOCATES × SHRINKS × MINIMUM_CHUNK_SIZE{0,512,4096} × {Z,S8,A32} × MIN_ALIGN.
+#[cfg(feature = "full-matrix")]
+pub fn full() -> Vec<ConfigEntry> {
+    let mut v = quick();
+    v.extend(cfgf00::entries());
+    v.extend(cfgf01::entries());
+    v.extend(cfgf02::entries());
+    v.extend(cfgf03::entries());
+    v.extend(cfgf04::entries());
+    v.extend(cfgf05::entries());
+    v.extend(cfgf06::entries());
+    v.extend(cfgf07::entries());
+    v.extend(cfgf08::entries());
+    v.extend(cfgf09::entries());
+    v.extend(cfgf10::entries());
+    v.extend(cfgf11::entries());
+    v.extend(cfgf12::entries());
+    v.extend(cfgf13::entries());
+    v.extend(cfgf14::entries());
+    v
+}
+
+#[cfg(not(feature = "full-matrix"))]
+pub fn full() -> Vec<ConfigEntry> {
     quick()
+}
+
+pub const HAS_FULL: bool = cfg!(feature = "full-matrix");
+
+pub fn all(include_full: bool) -> Vec<ConfigEntry> {
+    if include_full { full() } else { quick() }
 }
